@@ -30,6 +30,19 @@ func Main(args []string) int {
 		return cmdCheck(args[1:])
 	case "verify":
 		return cmdVerify(args[1:])
+	case "manifest":
+		return cmdManifest(args[1:])
+	case "replay":
+		if len(args) > 1 {
+			data, err := os.ReadFile(args[1])
+			if err != nil {
+				fmt.Println(err)
+				return 2
+			}
+			fmt.Print(string(data))
+			return replayRun(args[1])
+		}
+		return 2
 	case "summary":
 		return cmdSummary(args[1:])
 	case "model":
